@@ -56,16 +56,6 @@ def code_of(outcome) -> int:
     return 8
 
 
-class Obj:
-    """A foreign borrower object."""
-
-    def __init__(self, i):
-        self.i = i
-
-    def __repr__(self):
-        return f"Obj{self.i}"
-
-
 class BaseRun:
     def _open(self, ntasks):
         import anyio
@@ -95,7 +85,7 @@ class BaseRun:
         # drop the loop / tasks / primitive: only the recorded history is needed from here on
         self.world = None
         self.sem = self.lim = None
-        self.tid_of = self.foreign = self.fid_of = None
+        self.tid_of = None
 
     def runnable_set(self):
         return {t for t, p in self.world.puppets.items() if not p.at_decision and self.world.runnable(p)}
@@ -378,14 +368,14 @@ class LimRun(BaseRun):
         self.total0 = total_code
         self.lim = self.anyio.CapacityLimiter(tot_val(total_code))
         self._spawn()
-        self.foreign = {i: Obj(i) for i in (11, 12, 13)}
-        self.fid_of = {id(o): i for i, o in self.foreign.items()}
+        # foreign borrowers are hashable KEYS: every call builds a fresh, equal tuple (equality, not identity)
+        self.foreign = (11, 12, 13)
         # monitor state
         self.holders: set[int] = set()
         self.inprog: dict[int, tuple] = {}     # task -> (b, 'fy' | 'wait' | 'granted')
         self.waitq: list[tuple] = []           # (task, b) waiting without a token, arrival order
         self.cancel_req: set[int] = set()
-        self.outside = False                   # history left the stated input domain (O1/O2): monitors off
+        self.outside = False                   # history left the stated input domain (O2): monitors off
         self.lowered = False
 
     def header(self):
@@ -397,12 +387,12 @@ class LimRun(BaseRun):
     def bobj(self, b):
         if b <= self.ntasks:
             return self.world.puppets[b].task
-        return self.foreign[b]
+        return ("key", b)     # a new tuple object on every call
 
     def bname(self, o):
-        if id(o) in self.tid_of:
-            return self.tid_of[id(o)]
-        return self.fid_of.get(id(o), 99)
+        if isinstance(o, tuple):
+            return o[1]
+        return self.tid_of.get(id(o), 99)
 
     def observe(self):
         lim = self.lim
@@ -438,10 +428,8 @@ class LimRun(BaseRun):
     def in_domain(self, op):
         c, t, x = op
         busy_b = {b for (b, _k) in self.inprog.values()}
-        if c == 0 and x in busy_b:
-            return False           # O1 (and the harmless RuntimeError variant)
         if c == 2 and x in busy_b:
-            return False           # O2
+            return False           # O2: release_on_behalf_of(b) before b's acquire call returned
         return True
 
     def weight(self, op, w):
@@ -456,6 +444,9 @@ class LimRun(BaseRun):
                 v *= 0.08
             if c in (0, 1) and isb:
                 v *= 0.08
+            if c == 0 and x in {b for (b, _k) in self.inprog.values()}:
+                # another acquire for the same borrower is still in progress (duplicate borrower, F16)
+                v = w[c] * w.get("dup", 1.0)
         if c == 5:
             v *= w["tot"].get(x, 1.0)
         if c == 6:
@@ -524,6 +515,16 @@ class LimRun(BaseRun):
                 self.flags.add("double_borrow")
                 if k != 3 or after != before:
                     self.hit(f"{LIM_OPS[c]} for {x} which already holds a token: res {k}, state {before}->{after}")
+            elif c == 0 and any(b == x for (_t, b) in self.waitq):
+                # the borrower already has a slot in the wait queue: refused, nothing changes (F16)
+                self.flags.add("dup_waiter_rejected")
+                if any(tt in self.cancel_req for (tt, b) in self.waitq if b == x):
+                    self.flags.add("dup_waiter_same_cycle_as_cancel")
+                if k != 3 or after != before:
+                    self.hit(f"second acquire_on_behalf_of({x}) by task {t} while {[tt for (tt, b) in self.waitq if b == x]} already wait for it: res {k} (expected RuntimeError), state {before}->{after}")
+                if k == 1:
+                    self.waitq.append((t, x))
+                    self.inprog[t] = (x, "wait")
             else:
                 is_busy = before[3] > 0 or not (nb_before < tot_b)
                 if is_busy:
@@ -657,6 +658,8 @@ class LimRun(BaseRun):
             self.hit(f"tasks_waiting {after[3]} != {len(self.waitq)} waiting tasks {self.waitq}")
         if after[3] > 0 and nb_after < tot_a:
             self.hit(f"{after[3]} tasks wait although {tot_a - nb_after} tokens are free")
+        if self.waitq and nb_after < tot_a:
+            self.hit(f"lost waiter: tasks {[tt for (tt, _b) in self.waitq]} are blocked without a token although {tot_a - nb_after} tokens are free (tasks_waiting={after[3]})")
 
     def quiesce(self):
         for _ in range(400):
@@ -697,6 +700,17 @@ def make_run(params):
     return LimRun(params["total"], params["ntasks"])
 
 
+def op_possible(r, op) -> bool:
+    p = r.world.puppets.get(op[1])
+    if p is None:
+        return False
+    if op[0] == 3:
+        return (not p.at_decision) and r.world.runnable(p)
+    if op[0] == 4:
+        return not p.at_decision
+    return p.at_decision
+
+
 def run_script(params, flat_ops, quiesce=True, strict=False):
     """Replay a flat op list on the implementation.  strict: return None if an op is not enabled."""
     r = make_run(params)
@@ -706,6 +720,12 @@ def run_script(params, flat_ops, quiesce=True, strict=False):
             op = tuple(flat_ops[i:i + W])
             if strict and op not in r.enabled():
                 return None
+            if not op_possible(r, op):
+                # a stored script whose op cannot be performed any more: the implementation left the recorded
+                # behaviour earlier (e.g. a task is blocked where the script expects it at a decision point)
+                r.flags.add("script_diverged")
+                r.hit(f"stored script: step {i // W} {op} cannot be performed (task state differs from the recorded run)")
+                break
             r.do(*op)
         r.enabled_at_end = r.enabled()
         if quiesce:
@@ -744,7 +764,8 @@ def random_lim(rng, nsteps, allow_outside=False):
     total = rng.choice([-1, 0, 0, 1, 1, 1, 2, 2, 3])
     ntasks = rng.choice([2, 3, 3, 4, 5])
     w = {0: 5, 1: 1.2, 2: 3, 3: 5, 4: rng.choice([0.5, 2, 4]), 5: rng.choice([0.3, 1.0, 2.0]), 6: 0.3,
-         "own": 1.0, "task_b": rng.choice([0.02, 0.1]), "foreign": rng.choice([0.05, 0.3]),
+         "own": 1.0, "task_b": rng.choice([0.02, 0.1]), "foreign": rng.choice([0.05, 0.3, 0.8]),
+         "dup": rng.choice([0.3, 2.0, 6.0]),
          "tot": {-1: 0.4, 0: 1.0, 1: 1.0, 2: 1.0, 3: 0.6}}
     r = LimRun(total, ntasks)
     with r:
@@ -795,15 +816,35 @@ def lim_small_alphabet(op):
     return True
 
 
+def lim_dup_alphabet(op):
+    """Small scope for duplicate borrowers: every task asks for the SAME foreign key 11."""
+    c, t, x = op
+    if c == 0:
+        return x == 11
+    if c == 1:
+        return x == t
+    if c == 2:
+        return x in (t, 11)
+    if c in (5, 6):
+        return False
+    return True
+
+
 def readable(r):
     W = r.W
     names = SEM_OPS if isinstance(r, SemRun) else LIM_OPS
     return [(names[r.ops[i]],) + tuple(r.ops[i + 1:i + W]) for i in range(0, len(r.ops), W)]
 
 
-def shrink(r, budget=150):
-    """Drop ops while some monitor still trips (replays in which a dropped op makes a later one disabled are
-    discarded)."""
+def msg_key(msg: str) -> str:
+    """Class of a monitor message: its head with the concrete numbers blanked."""
+    import re
+    return re.sub(r"\d+", "#", msg.split(":")[0])[:48]
+
+
+def shrink(r, key=None, budget=150):
+    """Drop ops while a monitor of the same class (`key`) still trips (replays in which a dropped op makes a
+    later one disabled are discarded)."""
     params, ops, W = r.params(), list(r.ops), r.W
     best = r
     changed = True
@@ -817,7 +858,7 @@ def shrink(r, budget=150):
                 rr = run_script(params, cand, quiesce=False, strict=True)
             except Exception:  # noqa: BLE001
                 rr = None
-            if rr is not None and rr.mon:
+            if rr is not None and rr.mon and (key is None or any(msg_key(m) == key for m in rr.mon)):
                 ops, best, changed = cand, rr, True
             i -= W
     return best
@@ -894,7 +935,7 @@ def check(tier: str) -> int:
     rep = core.Report("C10", tier)
     rep.assumptions = core.TRUSTED_BASE_COMMON + [
         "models prims/Sem.v, prims/Limiter.v hand-written from _asyncio.py:1962-2169 (HEAD, with the F1 fix); cancellation modelled as native Task.cancel() on blocked tasks (superset of what AnyIO scope delivery does to a blocked task)",
-        "Limiter theorems are conditional on `tainted = false`: no two concurrent acquire_on_behalf_of for one borrower (O1), no release_on_behalf_of(b) before b's acquire returned (O2); D1 (fixed in /repo by cf4519f) is kept only as the pinned witness lim_cancel_foreign_fastyield_refuted_pinned and its corpus case",
+        "Limiter theorems are conditional on `tainted = false`: only release_on_behalf_of(b) before b's acquire returned (O2) taints; duplicate borrowers (F16, fixed by 44feca9) are covered, pre-fix behaviour kept as lim_duplicate_waiter_refuted_pinned; D1 (fixed in /repo by cf4519f) is kept only as the pinned witness lim_cancel_foreign_fastyield_refuted_pinned and its corpus case",
     ]
     import time
     stage = {}
@@ -918,7 +959,7 @@ def check(tier: str) -> int:
     for _ in range(500 if quick else 7000):
         runs.append(random_lim(rng, rng.choice(lens)))
     n_out = 0
-    for _ in range(60 if quick else 700):      # out-of-domain stream (O1/O2 histories): correspondence only
+    for _ in range(60 if quick else 700):      # out-of-domain stream (O2 histories): correspondence only
         runs.append(random_lim(rng, rng.choice(lens), allow_outside=True))
         n_out += 1
     n_random = len(runs) - n_corpus
@@ -927,6 +968,7 @@ def check(tier: str) -> int:
         ex += exhaustive({"prim": "sem", "fast": False, "init": 1, "max": 1, "ntasks": 2}, 4)
         ex += exhaustive({"prim": "sem", "fast": True, "init": 0, "max": None, "ntasks": 2}, 3)
         ex += exhaustive({"prim": "limiter", "total": 1, "ntasks": 2}, 4, lim_small_alphabet)
+        ex += exhaustive({"prim": "limiter", "total": 1, "ntasks": 3}, 4, lim_dup_alphabet)
     else:
         for fast in (False, True):
             for init, mx in ((0, None), (1, 1), (1, None), (2, 2), (0, 1)):
@@ -935,6 +977,8 @@ def check(tier: str) -> int:
         for tot in (0, 1, 2, -1):
             ex += exhaustive({"prim": "limiter", "total": tot, "ntasks": 3}, 4, lim_small_alphabet)
         ex += exhaustive({"prim": "limiter", "total": 1, "ntasks": 2}, 5, lim_small_alphabet)
+        ex += exhaustive({"prim": "limiter", "total": 1, "ntasks": 3}, 5, lim_dup_alphabet)
+        ex += exhaustive({"prim": "limiter", "total": 0, "ntasks": 3}, 4, lim_dup_alphabet)
     runs += ex
     ctor_bad = constructor_checks()
     stage["impl_runs"] = round(time.time() - t0, 1); t0 = time.time()
@@ -978,13 +1022,14 @@ def check(tier: str) -> int:
     seen_msgs = set()
     reported = 0
     for r, msg in monitor_hits:
-        key = msg.split(":")[0][:40]
-        if key in seen_msgs or reported >= 5:
+        key = msg_key(msg)
+        if key in seen_msgs or reported >= 6:
             continue
         seen_msgs.add(key)
         reported += 1
-        small = shrink(r)
-        rep.violation(small.mon[0] if small.mon else msg,
+        small = shrink(r, key)
+        first = next((m for m in small.mon if msg_key(m) == key), msg)
+        rep.violation(first,
                       {"kind": "monitor", "params": small.params(), "ops": small.ops, "quiesce": False,
                        "ops_readable": readable(small), "monitor_messages": small.mon[:6],
                        "replay_cmd": "cd /verif && VERIF_REPO=${VERIF_REPO:-/repo} /venv/bin/python harness/c10.py <this file>"})
@@ -1028,7 +1073,7 @@ def check(tier: str) -> int:
         "traces_validated_against_impl": len(runs) - len(disagreements),
         "disagreements_checked": len(disagreements),
         "distinct_nontrivial": distinct,
-        "rule": "random walk over the ops the implementation enables (idle task: acquire/acquire_nowait/release [limiter: on behalf of itself, another task or a foreign object; total_tokens := inf/0/1/2/3 or an invalid value]; blocked task: resume if its wake-up is queued, native cancel at any cycle incl. the hand-off cycle and the shielded yield), 2-5 tasks, all initial values/totals incl. 0 and inf, max_value None/initial/above, fast_acquire on/off, then quiescence; the main limiter stream stays inside the stated input domain (O1/O2 excluded), a separate stream leaves it (correspondence only); plus exhaustive enumeration of all enabled op sequences to a fixed depth; non-trivial = reaches a contended wait, a cancelled waiter, a hand-off, a total_tokens lowering below borrowed or a raise after it",
+        "rule": "random walk over the ops the implementation enables (idle task: acquire/acquire_nowait/release [limiter: on behalf of itself, another task or a foreign object; total_tokens := inf/0/1/2/3 or an invalid value]; blocked task: resume if its wake-up is queued, native cancel at any cycle incl. the hand-off cycle and the shielded yield), 2-5 tasks, all initial values/totals incl. 0 and inf, max_value None/initial/above, fast_acquire on/off, then quiescence; concurrent acquire_on_behalf_of calls for the SAME borrower key (fresh equal tuples, boosted weight, incl. the call issued in the cycle in which the first waiter was cancelled) are part of the main stream; the main limiter stream excludes only O2 (release_on_behalf_of(b) before b's acquire returned), a separate stream includes it (correspondence only); plus exhaustive enumeration of all enabled op sequences to a fixed depth; non-trivial = reaches a contended wait, a cancelled waiter, a hand-off, a total_tokens lowering below borrowed or a raise after it",
         "exhaustive_small_scope_cases": len(ex),
         "corpus_cases": n_corpus,
         "random_cases": n_random,
@@ -1049,7 +1094,7 @@ def check(tier: str) -> int:
             "wait", "grant_by_release", "grant_by_settotal", "cancel_before_set", "cancel_after_set",
             "cancelled_then_granted", "pass_on", "lower_below_borrowed", "raise_after_lower", "total_zero", "total_inf",
             "double_borrow", "nonborrower_release", "bad_total", "on_behalf_wait", "on_behalf_foreign",
-            "cancel_fastyield_foreign"]
+            "cancel_fastyield_foreign", "dup_waiter_rejected", "dup_waiter_same_cycle_as_cancel"]
     for n in need:
         if not flags.get(n):
             rep.notes.append(f"generator self-check: predicate {n} never reached")
